@@ -122,13 +122,15 @@ func runConc1(c *ConcCase, controlled bool) (f *vh.Failure, info concInfo) {
 				arrive(id)
 			}
 		}
+		reassembly.VerifPoolLockHook = ctl.BeforeRWLock
+		reassembly.VerifResetLockHook = ctl.BeforeLock
 		oi := 0
 		reassembly.VerifOrderHook = func(keys []string) []int {
 			oi++
 			return c.Perm(oi-1, len(keys)) // every order is legal: map iteration order is unspecified
 		}
 		defer func() {
-			reassembly.VerifYieldHook, reassembly.VerifLockHook, reassembly.VerifOrderHook = nil, nil, nil
+			reassembly.VerifYieldHook, reassembly.VerifLockHook, reassembly.VerifOrderHook, reassembly.VerifPoolLockHook, reassembly.VerifResetLockHook = nil, nil, nil, nil, nil
 		}()
 		for i := 0; i < c.NAsm; i++ {
 			ctl.Go(fmt.Sprintf("asm%d", i), feed(i))
@@ -137,7 +139,7 @@ func runConc1(c *ConcCase, controlled bool) (f *vh.Failure, info concInfo) {
 			ctl.Go("flusher", flusher)
 		}
 		ctl.Run()
-		reassembly.VerifYieldHook, reassembly.VerifLockHook, reassembly.VerifOrderHook = nil, nil, nil
+		reassembly.VerifYieldHook, reassembly.VerifLockHook, reassembly.VerifOrderHook, reassembly.VerifPoolLockHook, reassembly.VerifResetLockHook = nil, nil, nil, nil, nil
 		info.steps, info.lockBusy = ctl.Steps, ctl.LockBusyYields
 		if os.Getenv("VERIF_TRACE") != "" {
 			fmt.Fprintln(os.Stderr, "TRACE", ctl.Trace)
